@@ -287,3 +287,82 @@ Definition dec_head (strings contigs : smap) (bs : list N) : option (head * list
     end
   | _ => None
   end.
+
+(* ------------------------------------------------------------------ the INFO / FORMAT blocks *)
+(* what decoder/value.rs read_value (mult = 1) and decoder/samples/values.rs read_values /
+   read_genotype_values (mult = sample count) consume: the descriptor, then len entries of the
+   type's width per sample *)
+Definition value_payload (code len : Z) : option nat :=
+  if code =? 0 then Some 0%nat
+  else if code =? 1 then Some (Z.to_nat len)
+  else if code =? 2 then Some (2 * Z.to_nat len)%nat
+  else if (code =? 3) || (code =? 5) then Some (4 * Z.to_nat len)%nat
+  else if code =? 7 then Some (Z.to_nat len)
+  else None.
+
+(* the typed value at the head of bs (descriptor + payload) and what follows it.  series = true:
+   a per-sample series, whose descriptor may not be the MISSING type (.expect("unhandled type"))
+   nor a zero-length Int/Float (InvalidLength) *)
+Definition split_typed (series : bool) (mult : nat) (bs : list N) : option (list N * list N) :=
+  match read_type bs with
+  | Some (code, len, r) =>
+    if series && ((code =? 0) || ((len =? 0) && negb (code =? 7))) then None
+    else match value_payload code len with
+    | Some k =>
+      match take (mult * k) r with
+      | Some (_, r') => take (length bs - length r') bs
+      | None => None
+      end
+    | None => None
+    end
+  | None => None
+  end.
+
+Fixpoint has_key (k : name) (l : list (name * list N)) : bool :=
+  match l with [] => false | (k', _) :: r => name_eqb k k' || has_key k r end.
+
+(* decoder/info.rs read_info (dup = true: a repeated key is DuplicateKey) and
+   decoder/samples.rs read_samples (dup = false): n fields, each a key index resolved through
+   the dictionary and a typed value / series; the values are returned as byte blocks *)
+Fixpoint dec_fields (m : smap) (mult : nat) (dup : bool) (n : nat) (bs : list N)
+  : option (list (name * list N) * list N) :=
+  match n with
+  | O => Some ([], bs)
+  | S n' =>
+    match dec_index bs with
+    | Some (i, r) =>
+      match get_index m (Z.to_nat i) with
+      | Some k =>
+        match split_typed (negb dup) mult r with
+        | Some (vb, r') =>
+          match dec_fields m mult dup n' r' with
+          | Some (l, r'') => if dup && has_key k l then None else Some ((k, vb) :: l, r'')
+          | None => None
+          end
+        | None => None
+        end
+      | None => None
+      end
+    | None => None
+    end
+  end.
+
+(* read_record_buf as a whole: the split, the site head, the INFO block, the FORMAT block *)
+Definition dec_record (strings contigs : smap) (bs : list N)
+  : option (head * list (name * list N) * list (name * list N) * list N) :=
+  match dec_frame bs with
+  | Some (sb, ib, rest) =>
+    match dec_head strings contigs sb with
+    | Some (h, info_bytes) =>
+      match dec_fields strings 1 true (Z.to_nat (h_n_info h)) info_bytes with
+      | Some (infos, _) =>
+        match dec_fields strings (Z.to_nat (h_n_sample h)) false (Z.to_nat (h_n_fmt h)) ib with
+        | Some (fmts, _) => Some (h, infos, fmts, rest)
+        | None => None
+        end
+      | None => None
+      end
+    | None => None
+    end
+  | None => None
+  end.
